@@ -17,6 +17,7 @@
      IJmpCmp c      JMPLT JMPLE JMPGT JMPGE JMPEQ JMPNE [_L]
      ICall t        CALL[_L]          IRet  RET        IDrop DROP     INop NOP
      ISwap IReverse3 IReverse4 IReverseN              SWAP REVERSE3 REVERSE4 REVERSEN
+     IDup DUP        IEqual EQUAL (primitive items: same type and same value)
    Not modelled: gas, the 2048-item stack limit, the 1024-frame invocation limit, reference counting
    (all items of the subset are primitive). *)
 From NG Require Import Common.Tactics Lang.MiniGo.
@@ -32,7 +33,8 @@ Inductive instr :=
 | IInitSlot (nl na : nat)
 | IJmp (t : nat) | IJmpIf (t : nat) | IJmpIfNot (t : nat) | IJmpCmp (c : cmp) (t : nat)
 | ICall (t : nat) | IRet
-| IDrop | ISwap | IReverse3 | IReverse4 | IReverseN | INop.
+| IDrop | ISwap | IReverse3 | IReverse4 | IReverseN | INop
+| IDup | IEqual.
 
 Definition code := list instr.
 
@@ -52,6 +54,15 @@ Definition as_bool (v : val) : bool :=
 
 (* stackitem.NewBigInteger panics beyond 256 bits *)
 Definition fits256 (z : Z) : bool := (- 2 ^ 255 <=? z) && (z <? 2 ^ 255).
+
+(* stackitem Equals on the primitive items of the subset: no conversion between Integer and Boolean *)
+Definition val_equal (a b : val) : bool :=
+  match a, b with
+  | VInt x, VInt y => x =? y
+  | VBool x, VBool y => Bool.eqb x y
+  | VNull, VNull => true
+  | _, _ => false
+  end.
 
 Definition is_ord (c : cmp) : bool := match c with CEq | CNe => false | _ => true end.
 
@@ -178,6 +189,8 @@ Definition exec_instr (i : instr) (s : state) : sres :=
       | _ => SFault
       end
   | INop => set_stk s (stk s)
+  | IDup => match stk s with v :: rest => set_stk s (v :: v :: rest) | _ => SFault end
+  | IEqual => match stk s with vb :: va :: rest => set_stk s (VBool (val_equal va vb) :: rest) | _ => SFault end
   end.
 
 (* at the end of the script the VM executes an implicit RET (Context.Next); a pc beyond it cannot
